@@ -155,6 +155,44 @@ def cmd_run(args):
     return 0
 
 
+def cmd_refactor(args):
+    """Import a behaviour-preserving refactoring and run EVERY quick check against it: all must stay quiet."""
+    src, name = args.dir, args.name
+    dst = os.path.join(HERE, "refactors", name)
+    patch = os.path.join(src, "patch.diff")
+    base = json.load(open("/root/.vp/BASELINE.json"))["stable_pass"]
+    meta = {"property": args.prop, "name": name,
+            "origin": "independent sub-agent asked for a refactoring under which the property still holds"}
+    rows = []
+    with Worktree() as tree:
+        r = sh(["git", "-C", tree, "apply", "--whitespace=nowarn", patch])
+        if r.returncode:
+            print(name, "patch does not apply:", r.stderr[:200])
+            return 1
+        passed = pytest_pass_set(tree)
+        missing = sorted(set(base) - passed)
+        meta["existing_suite_with_change"] = {"passed": len(passed), "stable_pass_missing": missing}
+        sc = os.path.join(src, "selfcheck.py")
+        if os.path.exists(sc):
+            rc, out = run_demo(tree, sc)
+            meta["selfcheck_with_change"] = {"rc": rc, "tail": out[-200:]}
+        props = args.props.split(",") if args.props else ALL
+        for p in props:
+            res = run_check(tree, p, "quick")
+            meta.setdefault("results", {})[f"{p}/quick"] = res
+            rows.append((p, res["rc"], res["signatures"][:2]))
+    os.makedirs(dst, exist_ok=True)
+    shutil.copy(patch, os.path.join(dst, "patch.diff"))
+    for extra in ("notes.md", "selfcheck.py"):
+        if os.path.exists(os.path.join(src, extra)):
+            shutil.copy(os.path.join(src, extra), os.path.join(dst, extra))
+    json.dump(meta, open(os.path.join(dst, "meta.json"), "w"), indent=1)
+    alarms = [(p, sg) for p, rc, sg in rows if rc != 0]
+    print(f"{name}: suite missing={len(missing)} selfcheck={meta.get('selfcheck_with_change', {}).get('rc')} "
+          + ("ALL QUIET" if not alarms else f"ALARMS {alarms}"))
+    return 0
+
+
 def main():
     ap = argparse.ArgumentParser()
     sub = ap.add_subparsers(dest="cmd", required=True)
@@ -168,7 +206,14 @@ def main():
     b.add_argument("--seed", default="1")
     b.add_argument("--all-props", action="store_true")
     b.add_argument("--prop", help="run these checks (comma separated) instead of the seed's own")
+    c = sub.add_parser("refactor")
+    c.add_argument("prop")
+    c.add_argument("name")
+    c.add_argument("dir")
+    c.add_argument("--props", help="checks to run (default: all 19)")
     args = ap.parse_args()
+    if args.cmd == "refactor":
+        return cmd_refactor(args)
     return cmd_import(args) if args.cmd == "import" else cmd_run(args)
 
 
